@@ -213,6 +213,21 @@ func clAccounting(c *Ctx) {
 					}
 				}
 			}
+			if !okFn {
+				// an owner of the table that no longer exists under its name (renamed, or turned from a
+				// method into a function): the one function that now makes the same update takes its place
+				missing := 0
+				for name, w := range tbl {
+					if p.funcByFname(name) == nil && w == u.delta {
+						missing++
+						want = w
+					}
+				}
+				if missing == 1 {
+					okFn = true
+					c.Note("counter " + u.field + " " + u.delta + ": table owner not found under its name; " + fname(fn) + " taken as the renamed owner")
+				}
+			}
 			c.Check(okFn && want == u.delta, fn, u.in, cnt.in(fn, "counter "+u.field+" "+u.delta+" by its owner"), "a structure counter is updated outside the frozen accounting table")
 		}
 	}
